@@ -124,12 +124,13 @@ def check_render(profile, shown, report):
 
 def eval_profile(profile, render: bool):
     report = make_report(profile)
-    if report.quality_profile() != list(profile):
-        raise core.HarnessError(f"profile {profile} not realised: {report.quality_profile()}")
     q = report.quality_profile_percentage()
     e, v, h, u = q
     shown = (e + v, h, u)
     viol = check_numbers(profile, shown)
+    if not viol and report.quality_profile() != list(profile):
+        # the list of function lengths was built to have exactly this profile under the thresholds 15/30/60 (mc.harness.category)
+        viol.append(("lines-attributed-to-the-wrong-category", {}, f"functions realising {profile} are summarised as {report.quality_profile()}"))
     if render:
         viol += check_render(profile, shown, report)
     return q, viol
